@@ -25,7 +25,7 @@ use swimos_recon::parser::parse_recognize;
 use swimos_runtime::verif_hooks::MapBackpressure;
 use vcommon::{Ctx, Verdict};
 use vsim::agent::{Act, AgentFlags, Ev};
-use vsim::{arb_cap, arb_sched_op, arb_small_cap, FrameKind, Op, SimParams};
+use vsim::{arb_cap, arb_sched_op, FrameKind, Op, SimParams};
 
 const LANES: [&str; 4] = ["m0", "m1", "mt", "ctl"];
 
@@ -77,7 +77,7 @@ fn arb_map_cmd(nkeys: usize, heavy_take_drop: bool) -> impl Strategy<Value = Map
 
 fn arb_gop(nprogs: usize, nkeys: usize) -> impl Strategy<Value = GOp> {
     prop_oneof![
-        2 => (arb_small_cap(), arb_small_cap()).prop_map(|(in_cap, out_cap)| GOp::Plain(Op::Attach { in_cap, out_cap })),
+        2 => arb_attach().prop_map(GOp::Plain),
         4 => (any::<u16>(), 0u8..3).prop_map(|(r, lane)| GOp::Plain(Op::Link { r, lane })),
         3 => (any::<u16>(), 0u8..3).prop_map(|(r, lane)| GOp::Plain(Op::Sync { r, lane })),
         1 => (any::<u16>(), 0u8..3).prop_map(|(r, lane)| GOp::Plain(Op::Unlink { r, lane })),
@@ -258,7 +258,7 @@ struct SwCase {
 
 fn arb_sop(nkeys: usize) -> impl Strategy<Value = SOp> {
     prop_oneof![
-        2 => (arb_small_cap(), arb_small_cap()).prop_map(|(in_cap, out_cap)| SOp::Plain(Op::Attach { in_cap, out_cap })),
+        2 => arb_attach().prop_map(SOp::Plain),
         4 => (any::<u16>(), 0u8..3).prop_map(|(r, lane)| SOp::Plain(Op::Link { r, lane })),
         3 => (any::<u16>(), 0u8..3).prop_map(|(r, lane)| SOp::Plain(Op::Sync { r, lane })),
         1 => (any::<u16>(), 0u8..3).prop_map(|(r, lane)| SOp::Plain(Op::Unlink { r, lane })),
